@@ -8,7 +8,7 @@ SPEC = {
         "claim": {
             "category": "exploration",
             "technique": "bounded-exhaustive enumeration over class alphabets and all byte values per group position + rapidcheck corrupted encodings + libFuzzer raw texts, against the statement's acceptance predicate with exact-size (ASan) and canary-framed output buffers",
-            "text": "Every base64 string of length <= 8 over class representatives, every byte value (and every pair of byte values) at every position of final and non-final base64 groups, all 65536 hex pairs and all short hex class strings including odd lengths are decoded through the allocating, null-output and caller-buffer forms with every output_size from 0 to one above the implied length; longer inputs are valid encodings with 0-2 corruptions and coverage-guided raw texts. Accept/reject, return value, decoded bytes and every byte around the promised length are compared with a reference written from the property text. Short-group behaviour is exhausted over the listed alphabets; long inputs are sampled.",
+            "text": "Every base64 string of length <= 8 over class representatives, every byte value (and every pair of byte values) at every position of final and non-final base64 groups, all 65536 hex pairs and all short hex class strings including odd lengths are decoded through the allocating, null-output and caller-buffer forms with every output_size from 0 to one above the implied length; longer inputs are valid encodings with 0-2 corruptions and coverage-guided raw texts. Accept/reject, return value, decoded bytes and every byte around the promised length are compared with a reference written from the property text. Short-group behaviour is exhausted over the listed alphabets; long inputs are sampled. Every text is also decoded with eight output_size values far above anything that exists (SIZE_MAX, SIZE_MAX-1, 2^63-1, 2^63, 2^32, 2^32-1, 2^31, 2^31-1) over an exact-size block: decision and bytes written must not depend on them.",
             "level_note": "Trusts harness/ref/ref_codecs.h (acceptance predicates and arithmetic RFC 4648 decoder) as the reading of the statement, and ASan for writes beyond an exact-size block (the canary frame detects overruns of up to 24 bytes without it). Texts longer than about 420 characters are not generated.",
         },
         "assumptions": ["acceptance predicates and decoders in harness/ref/ref_codecs.h are a correct reading of the statement and of RFC 4648",
